@@ -82,6 +82,15 @@ func (r *rec) do(th int, c call, val int) {
 		o.Val, o.Ok = r.m.LoadAndDelete(c.k)
 	case "Delete":
 		r.m.Delete(c.k)
+	case "RangePanic+Store":
+		// the callback panics at its first call (the caller recovers); the map must be as usable as
+		// before: the Store that follows is recorded as the call of this step
+		func() {
+			defer func() { recover() }()
+			r.m.Range(func(k, v int) bool { panic("callback failed") })
+		}()
+		o.Kind = "Store"
+		r.m.Store(c.k, val)
 	case "Range", "Range+Store", "Range+LoadOrStore", "Range+Delete", "Range+Load":
 		// "Range+X": the callback, on its first invocation, makes call X on key c.k of the SAME map
 		// (the documented contract of Range allows any method to be called from the callback); X is
@@ -118,7 +127,7 @@ func (r *rec) do(th int, c call, val int) {
 		})
 	}
 	o.Inv, o.Ret = vrt.End()
-	if len(c.op) >= 5 && c.op[:5] == "Range" {
+	if len(c.op) >= 5 && c.op[:5] == "Range" && c.op != "RangePanic+Store" {
 		r.ops[th] = append(r.ops[th], nested...)
 		// decomposed: one pseudo-load per key, inside the Range call's interval; a key that
 		// was seen was loaded no later than its callback
@@ -236,7 +245,7 @@ func main() {
 	}
 	// calls made from inside a Range callback (same goroutine, same map), alone and against every
 	// single call of a second thread, from EVERY reachable layout
-	nestedCalls := []call{{"Range+Store", 2}, {"Range+Store", 0}, {"Range+LoadOrStore", 2}, {"Range+Delete", 1}, {"Range+Load", 2}}
+	nestedCalls := []call{{"Range+Store", 2}, {"Range+Store", 0}, {"Range+LoadOrStore", 2}, {"Range+Delete", 1}, {"Range+Load", 2}, {"RangePanic+Store", 2}}
 	for _, li := range layouts {
 		for _, a := range nestedCalls {
 			scs = append(scs, scenario(li, [][]call{{a}}, -1, -2))
